@@ -55,6 +55,7 @@ Proof.
   intros T E s o Hwf.
   assert (W0 : forall v, wfe (replace 0 v)) by (intro v; unfold wfe, replace; cbn [idx]; lia).
   assert (W1 : forall v, wfe (replace 1 v)) by (intro v; unfold wfe, replace; cbn [idx]; lia).
+  pose proof (W0 0%Z : wfe var_default) as Wd.
   destruct o as [t v|t v|t v|t|t|t|t|t|t|t]; cbn [estep se_step].
   - estep_setup t s x y Hx Hy Hput. rewrite (assign_temp_ok (ealts T E)) by (try exact Hx; apply W0). cbn [rbind].
     eexists; split; [reflexivity|]. split; [apply abses_put|apply wfes_put; auto].
@@ -150,4 +151,16 @@ Proof.
   - exists s. split; reflexivity.
   - destruct (rstep_refines s o) as [s1 [H1 Ha1]]. destruct (IH s1) as [s2 [H2 Ha2]].
     exists s2. cbn [rrun]. rewrite H1. cbn [rbind]. split; [exact H2|]. rewrite Ha2, Ha1. reflexivity.
+Qed.
+
+(** * unexpected<E> *)
+Theorem ustep_refines : forall E s o, ustep E s o = su_step E s o.
+Proof.
+  intros E [[a b] c] o. destruct o as [[|] v|[|]|[|]| |v]; reflexivity.
+Qed.
+
+Theorem urun_refines : forall E ops s, urun E s ops = su_run E s ops.
+Proof.
+  intros E ops. unfold urun, su_run. induction ops as [|o r IH]; intro s; cbn [fold_left]; [reflexivity|].
+  rewrite ustep_refines. apply IH.
 Qed.
